@@ -234,7 +234,7 @@ def case(ctx, rng, idx):
     if dict(m) != snap:
         ctx.violation(tag + "model-mutated", "model changed from %r to %r" % (snap, dict(m)), w)
         return
-    if snap_book is not None and not use_method and (m.variables, m.mapping if hasattr(m, "mapping") else None) != snap_book:
+    if snap_book is not None and (m.variables, m.mapping if hasattr(m, "mapping") else None) != snap_book:
         ctx.violation(tag + "model-bookkeeping-mutated", "variables/mapping changed", w)
         return
     if malformed:
